@@ -78,3 +78,171 @@ prop("C01",
 prop("C06",
      outside="panic-freedom of lexing/parsing arbitrary text, of the passes, lints and CLI; termination; time bounds",
      assumptions=COMMON_ASSUME)
+
+# ---------------------------------------------------------------------------
+# C17 / C06: numeric literals
+LOWER = ["str::to_lowercase -> byte-wise ASCII lower-casing (inputs are ASCII)"]
+IMM = [
+    ("imm_hex8", "quick", "sign, value:u32 (all), letter case per digit, x/X", "[-]0x + 8 hex digits", "8 digits, unwind 13"),
+    ("imm_hex9", "quick", "sign, value < 16^9, case per digit", "[-]0x + 9 hex digits: every 9-digit magnitude, incl. all out-of-range ones", "9 digits"),
+    ("imm_hex1", "quick", "sign, value < 16", "[-]0x + 1 hex digit", "1 digit"),
+    ("imm_hex4", "thorough", "sign, value < 16^4", "[-]0x + 4 hex digits", "4 digits"),
+    ("imm_bin32", "thorough", "sign, value:u32 (all), b/B", "[-]0b + 32 binary digits", "32 digits, unwind 37"),
+    ("imm_bin33", "thorough", "sign, value < 2^33", "[-]0b + 33 binary digits (out of range magnitudes)", "33 digits"),
+    ("imm_bin5", "thorough", "sign, value < 32", "[-]0b + 5 binary digits", "5 digits"),
+    ("imm_dec9", "quick", "sign, 9 decimal digits", "[-] + 9 decimal digits: every value up to 999 999 999", "9 digits"),
+    ("imm_dec10_window", "quick", "sign, last 4 of 10 decimal digits", "[-]214748dddd: the 10 000 values around 2^31, both signs", "10 digits, 6 fixed"),
+    ("imm_dec10", "thorough", "sign, value < 10^10", "[-] + 10 decimal digits: every value up to 9 999 999 999", "10 digits"),
+    ("imm_dec6", "thorough", "sign, 6 decimal digits", "[-] + 6 decimal digits", "6 digits"),
+    ("imm_dec3", "thorough", "sign, value < 1000", "[-] + 3 decimal digits", "3 digits"),
+    ("imm_bin16", "quick", "sign, 16 bits", "[-]0b + 16 binary digits", "16 digits"),
+    ("imm_dec11", "thorough", "sign, 11 decimal digits", "[-] + 11 decimal digits (far out of range)", "11 digits"),
+    ("imm_malformed1", "quick", "1 byte over [0-9a-zA-Z_-]", "accepted => matches the literal grammar with the denoted value; in-range => accepted", "1 byte"),
+    ("imm_malformed2", "quick", "2 bytes over [0-9a-zA-Z_-]", "same, 2 bytes", "2 bytes"),
+    ("imm_malformed3", "quick", "3 bytes over [0-9a-zA-Z_-]", "same, 3 bytes", "3 bytes"),
+    ("imm_malformed4", "quick", "4 bytes over [0-9a-zA-Z_-]", "same, 4 bytes", "4 bytes"),
+    ("imm_malformed5", "thorough", "5 bytes over [0-9a-zA-Z_-]", "same, 5 bytes", "5 bytes"),
+    ("imm_malformed6", "thorough", "6 bytes over [0-9a-zA-Z_-]", "same, 6 bytes", "6 bytes"),
+    ("imm_csr_hex3", "quick", "value < 0x1000, mixed case", "CsrImm::from_str of a 3-digit hex number is that number", "3 digits"),
+]
+for name, tier, sym, desc, bounds in IMM:
+    h(name, "ob_imm", ["C17", "C06"], tier=tier, symbolic=sym, desc="Imm::from_str: " + desc, bounds=bounds,
+      stubs=LOWER)
+h("imm_char_token", "ob_imm", ["C17", "C06"], symbolic="code point: every char",
+  desc="Imm::try_from(Token Char(c)) == c as i32", bounds="none")
+
+prop("C17",
+     outside="lui's << 12 and .word/.byte value lists (inside the parser, digits cannot be symbolic there; lui is "
+             "exercised with boundary literals under C08); non-ASCII spellings; literals longer than the templates",
+     assumptions=COMMON_ASSUME + ["str::to_lowercase stubbed by an ASCII model; harness strings are ASCII (all the lexer's symbol alphabet allows)",
+                                  "oracle is the weakest reading: decimal 2^31..2^32-1 may be rejected"])
+
+# ---------------------------------------------------------------------------
+# C09 / C06: lexer position bookkeeping
+h("lexpos_cursor6", "ob_lexpos", ["C09", "C06"], symbolic="length n<=6, 6 chars (any Unicode scalar)",
+  desc="consume_char/get_pos/get_range: (line, column, raw) of every character of every string of length <= 6",
+  bounds="strings of <= 6 chars, unwind 8")
+h("lexpos_cursor3", "ob_lexpos", ["C09", "C06"], symbolic="length n<=3, 3 chars",
+  desc="same, strings of length <= 3 (fast twin)", bounds="<= 3 chars")
+h("lexpos_cursor8", "ob_lexpos", ["C09", "C06"], tier="thorough", symbolic="length n<=8, 8 chars",
+  desc="same, strings of length <= 8", bounds="<= 8 chars, unwind 10")
+h("lexpos_position_order", "ob_lexpos", ["C09", "C06", "C18"], symbolic="two positions (line, column, raw: usize)",
+  desc="Position ordering is raw-offset order; one-based = zero-based + 1; increment_column", bounds="none")
+h("lexpos_position_line_start", "ob_lexpos", ["C09", "C06"], symbolic="position with column <= raw",
+  desc="decrement_to_beginning_of_line lands on column 0, raw - column", bounds="none")
+h("lexpos_range_order", "ob_lexpos", ["C09", "C18"], symbolic="four raw offsets",
+  desc="Range ordering is (start.raw, end.raw) lexicographic", bounds="none")
+prop("C09",
+     outside="which cursor index each token kind uses for its start/end (inside Lexer::next, not executable with "
+             "symbolic layout); whole-instruction ranges; diagnostics' ranges; included files; CLI rendering",
+     assumptions=COMMON_ASSUME + ["reference position: line = newlines before the index, column = distance from the line start, raw = index"])
+
+# ---------------------------------------------------------------------------
+# C14: register tables, set algebra, equivariance
+UUID = ["uuid::Uuid::new_v4 -> injective counter (ids are only compared for equality)"]
+h("regs_tables", "ob_regs", ["C14"], symbolic="register r (0..31)", desc="all 13 register-class sets equal the psABI masks", bounds="none")
+h("regs_num_roundtrip", "ob_regs", ["C14", "C06"], symbolic="n:u8", desc="from_num/to_num inverse on 0..31, rejected above", bounds="none")
+for n in (1, 2, 3, 4, 5):
+    h("regs_from_str%d" % n, "ob_regs", ["C14", "C13x"], tier="quick" if n <= 4 else "thorough",
+      symbolic="%d ASCII bytes" % n, desc="Register::from_str accepts exactly the ABI/numeric spellings (all %d-byte ASCII strings)" % n,
+      bounds="%d bytes" % n)
+h("regs_set_algebra", "ob_regs", ["C14", "C06"], symbolic="masks a,b:u32; registers r,q",
+  desc="RegisterSet | & - (sets and single registers), assign forms, contains, equality == bit-mask algebra", bounds="unwind 34")
+h("regs_set_iter", "ob_regs", ["C14", "C06"], symbolic="mask a:u32", desc="first three next() calls yield the three smallest members in order", bounds="3 steps, unwind 34")
+h("regs_ecall_table", "ob_regs", ["C14", "C06"], symbolic="call number:i32, register q",
+  desc="environment_in_outs mentions only a-registers, never returns in a7", bounds="none")
+KINDS = ["arith", "iarith", "jal", "jalr", "basic", "branch", "store", "load", "la", "csr", "csri", "funcentry"]
+GROUPS = [("kill", "kill_reg"), ("gen", "gen_reg"), ("rw", "writes_to, reads_from"), ("values", "gen_reg_value, gen_memory_value"),
+          ("preds", "is_return, is_ureturn, is_ecall, can_skip_save_checks, is_unconditional_jump, calls_to, jumps_to"),
+          ("memops", "stores_to_memory, reads_from_memory, uses_memory_location")]
+for i, k in enumerate(KINDS):
+    for j, (g, fs) in enumerate(GROUPS):
+        if g == "gen":
+            continue  # see props_*_gen: gen_reg is out of reach
+        core = (g in ("kill", "gen", "rw") and k in ("arith", "jal", "store", "load", "jalr")) or (g == "values" and k in ("iarith", "load", "store"))
+        h("equiv_%s_%s" % (k, g), "ob_regs", ["C14"], tier="quick", optional=not core,
+          symbolic="node fields (opcode, rd, rs1, rs2, imm, csr), transposition (a b) of two symbolic registers of the temporary or of the saved class, probe register",
+          desc="f(pi.node) == pi.f(node) for f in {%s} on %s nodes" % (fs, k),
+          bounds="transpositions (generate all permutations); unwind 9", stubs=UUID)
+prop("C14",
+     outside="that passes and lints use only these functions and set operations; label renaming (string hashing/equality "
+             "through Cfg::new); hence the program-level statement",
+     assumptions=COMMON_ASSUME + ["psABI register classes as transcribed in ob_regs.rs", "Uuid::new_v4 stubbed by an injective counter"])
+
+# ---------------------------------------------------------------------------
+# C08.d / C01.d: per-instruction property functions against the ISA formats
+PGROUPS = [("rw", "reads_from/writes_to == architectural source/destination fields", ["C08"]),
+           ("kill", "kill_reg == (rd) minus x0, caller-saved at calls and function entries", ["C01", "C08"]),
+           ("gen", "gen_reg == source registers minus x0, callee-saved at ret, all at uret", ["C08"]),
+           ("misc", "memory operands give the effective address; jump/call/return predicates agree with the ISA", ["C08"])]
+for k in KINDS:
+    for g, d, ps in PGROUPS:
+        if g == "gen":
+            # gen_reg consumes reads_from() by value; the drop glue of the tokens it carries makes the
+            # formula explode (17 M variables, out of memory) even for one node: not registered.
+            continue
+        h("props_%s_%s" % (k, g), "ob_props", ps, symbolic="node fields (opcode, registers, imm, csr), probe register" + (", 32 register contents" if g == "misc" else ""),
+          desc="%s node: %s" % (k, d), bounds="unwind 34", stubs=UUID,
+          optional=(g == "misc" and k in ("basic", "la", "csri", "funcentry")) or (g in ("kill", "gen") and k in ("basic", "la", "csri", "branch")))
+for k in ("arith", "iarith", "jalr", "branch", "store", "load", "csr"):
+    h("oracle_ni_" + k, "ob_props", ["C08"], tier="thorough", symbolic="node fields, two register files",
+      desc="oracle self-check: rvref::effect depends only on rvref::arch_reads", bounds="unwind 34")
+
+# ---------------------------------------------------------------------------
+# C08.b/c: text catalogue
+import json as _json
+import os as _os
+_cases = _json.load(open(_os.path.join(_os.path.dirname(_os.path.abspath(__file__)), "..", "kani", "catalogue", "text_cases.json")))
+TEXT_CASES = _cases
+for c in []:  # Kani cannot execute ParserNode::try_from on text inside its caps (measured, DESIGN.md section 1): decided by engine E3
+    h(c["name"], "gen_text", ["C08"] + (["C13x"] if c["pseudo"] else []), tier=c["tier"],
+      symbolic="32 register contents, loaded value, pc",
+      desc="text '%s' parses (real Lexer + ParserNode::try_from) to %s for all register contents" % (c["text"], "; ".join(c["expected"])),
+      bounds="concrete text (catalogue), unwind len+6", stubs=UUID + LOWER)
+
+# ---------------------------------------------------------------------------
+# C01.b/e: generated facts, seeding, meet, kill
+for k in ("arith", "iarith", "load", "la", "jal", "jalr", "csr", "csri", "store", "branch"):
+    h("gen_reg_" + k, "ob_gen", ["C01", "C06"], symbolic="node fields, entry/pre register files, addressed memory word",
+      desc="gen_reg_value of a %s node is true (gamma) in the post-state of the instruction" % k, bounds="unwind 34", stubs=UUID)
+h("gen_mem_store_sp", "ob_gen", ["C01"], symbolic="store width, registers, imm, register file, old memory word",
+  desc="gen_memory_value of an sp-relative store: slot offset and content are what the store writes", bounds="unwind 34", stubs=UUID)
+h("gen_mem_csrrw", "ob_gen", ["C01"], symbolic="node fields", desc="gen_memory_value of csrrw/s/c", bounds="unwind 34", stubs=UUID)
+h("gen_mem_csrrwi", "ob_gen", ["C01"], symbolic="node fields", desc="gen_memory_value of csrrwi/si/ci", bounds="unwind 34", stubs=UUID)
+for k in ("arith", "load", "jal"):
+    h("gen_mem_none_" + k, "ob_gen", ["C01"], tier="thorough", symbolic="node fields",
+      desc="no memory fact from a %s node" % k, bounds="unwind 34", stubs=UUID)
+h("gen_seeding", "ob_gen", ["C01"], symbolic="which seed set, probe register",
+  desc="callee_saved/sp_ra/all_writable .into_available_values() == r -> Orig(r,0) exactly on the set", bounds="unwind 34")
+h("gen_meet", "ob_gen", ["C01", "C12x"], symbolic="two maps: presence bits and values (variant, payload, register) on 3 keys",
+  desc="AvailableValueMap &= keeps exactly the keys bound to equal values in both", bounds="3 keys, unwind 8")
+h("gen_kill_step", "ob_gen", ["C01"], symbolic="map on 3 keys, killed register", desc="map -= set removes exactly the killed keys", bounds="3 keys")
+
+# C01.c: rewrite rules (catalogue of roles x variants)
+_rules = _json.load(open(_os.path.join(_os.path.dirname(_os.path.abspath(__file__)), "..", "kani", "catalogue", "rules_cases.json")))
+for c in _rules:
+    h(c["name"], "gen_rules", ["C01", "C06"], tier=c["tier"], symbolic=c["symbolic"], desc=c["desc"],
+      bounds="concrete register roles (catalogue), <= 3 facts per map, unwind 34", stubs=UUID)
+
+# ---------------------------------------------------------------------------
+# C06: abs() in message formatting; C18.a ordering; C19 dump values
+FMT = ["core::fmt::write -> Ok(()) (formatting is not the subject; the argument expressions are still evaluated)"]
+h("abs_memloc_fmt", "ob_misc", ["C06"], symbolic="offset:i32", desc="Display for MemoryLocation::StackOffset(o) never panics (o.abs())", bounds="none", stubs=FMT)
+h("abs_lint_fmt", "ob_misc", ["C06"], symbolic="offset:i32, variant", desc="Display for LintError::InvalidStackPosition/InvalidStackOffsetUsage never panics (i.abs())", bounds="none", stubs=FMT + UUID)
+h("abs_memloc_ser", "ob_misc", ["C06", "C19"], symbolic="offset:i32", desc="Serialize for MemoryLocation::StackOffset(o) never panics (o.abs())", bounds="none",
+  stubs=["alloc::fmt::format -> empty String (arguments still evaluated)"])
+h("serde_fact_injective", "ob_misc", ["C19"], symbolic="two facts: variant (9), i32, u32 csr, register, label (2)",
+  desc="record(a) == record(b) => a == b under a recording Serializer that keeps variant names and scalar values", bounds="labels from a 2-entry set; unwind 8")
+h("serde_scalar_records", "ob_misc", ["C19"], symbolic="register, i32, u32", desc="Register / Imm / CsrImm serialize to their number", bounds="none")
+h("serde_regset_roundtrip", "ob_misc", ["C19"], symbolic="4-bit mask at a symbolic nibble position",
+  desc="RegisterSet: deserialize(serialize(s)) == s", bounds="<= 3 members inside one nibble window; unwind 34")
+h("diag_cmp_order", "ob_misc", ["C18"], symbolic="3 items: file (2 values), start/end raw offsets",
+  desc="DiagnosticItem::cmp is a total order consistent with ==, and position order within a file", bounds="3 items")
+h("diag_sort_three", "ob_misc", ["C18"], symbolic="3 items: file (2 values), raw offset",
+  desc="Vec<DiagnosticItem>::sort() leaves each file's items in position order", bounds="3 items, unwind 20")
+prop("C18", outside="agreement between pretty/compact/JSON/RVParser::run (four copies of the pipeline behind the CLI and the file "
+     "system), where sort() is called, JSON well-formedness, titles/severities, caret rendering",
+     assumptions=COMMON_ASSUME)
+prop("C19", outside="MemoryLocation strings (format!-based), AvailableValueMap (BTreeMap collection), the CFG-level dump, "
+     "edges/functions, YAML syntax (serde_yaml)",
+     assumptions=COMMON_ASSUME + ["the recording Serializer keeps exactly what a self-describing format keeps: variant name, scalar value, sequence elements, strings"])
